@@ -106,16 +106,36 @@ def h_execute(where, outcome, debug):
         it.f.update(stack=stack, context=ctx, parser=None)
         body = Body(log, outcome if where == 'body' else 'ok', stack, ctx)
 
+        memos = []
+
         def deepcopy(eng, a, k):
-            (x,) = a
+            # copy.deepcopy(x, memo=None): ONE PASS is one call, or several calls handed the SAME memo dictionary (the documented
+            # contract of the memo argument: an object already copied in the pass is not copied again, so references between the
+            # copies are kept).  The container that carries the live objects into the call (tuple / list / dict values) is not part
+            # of the contract: the copy has the same shape.
+            x = a[0] if a else k.get('x')
+            memo = a[1] if len(a) > 1 else k.get('memo')
             ncopy[0] += 1
-            log.append(('deepcopy', tuple(o.name for o in x) if isinstance(x, tuple) else getattr(x, 'name', '?')))
+            if memo is None:
+                pass_id = ('call', ncopy[0])
+            elif isinstance(memo, dict):
+                if not any(m is memo for m in memos):
+                    memos.append(memo)
+                pass_id = ('memo', next(i for i, m in enumerate(memos) if m is memo))
+            else:
+                raise Unsupported('deepcopy with a memo that is not a dict')
+            members = list(x) if isinstance(x, (tuple, list)) else list(x.values()) if isinstance(x, dict) else [x]
+            if not all(isinstance(o, Live) for o in members):
+                raise Unsupported('deepcopy of something else')
+            log.append(('deepcopy', tuple(o.name for o in members), pass_id))
 
             def snap(o):
-                if not isinstance(o, Live):
-                    raise Unsupported('deepcopy of something else')
-                return Snap(o, o.version, ncopy[0])
-            return tuple(snap(o) for o in x) if isinstance(x, tuple) else snap(x)
+                return Snap(o, o.version, pass_id)
+            if isinstance(x, (tuple, list)):
+                return type(x)(snap(o) for o in x)
+            if isinstance(x, dict):
+                return {key: snap(o) for key, o in x.items()}
+            return snap(x)
 
         def parse(eng, a, k):
             log.append(('parse',))
@@ -141,9 +161,11 @@ def h_execute(where, outcome, debug):
             raised, res = ex.exc, None
         snaps = [x for x in log if x[0] == 'deepcopy']
         ex_idx = [i for i, x in enumerate(log) if x[0] == 'execute']
-        before_body = bool(snaps) and (not ex_idx or log.index(snaps[0]) < ex_idx[0])       # parsing is pure: its position does not matter
+        before_body = bool(snaps) and (not ex_idx or all(log.index(sn) < ex_idx[0] for sn in snaps))   # parsing is pure: its position does not matter
+        copied = sorted(nm for sn in snaps for nm in sn[1])
+        one_pass = len({sn[2] for sn in snaps}) == 1
         e.check(f'{tag}::snapshot.single_pass(one deepcopy of context and stack together, before the body runs)',
-                z3.BoolVal(len(snaps) == 1 and before_body and isinstance(snaps[0][1], tuple) and sorted(snaps[0][1]) == ['context', 'stack']))
+                z3.BoolVal(bool(snaps) and one_pass and before_body and copied == ['context', 'stack']))
         s_now, c_now = it.f.get('stack'), it.f.get('context')
         if outcome == 'ok':
             e.check(f'{tag}::on_success.nothing_raised', z3.BoolVal(raised is None))
